@@ -156,6 +156,18 @@ impl CpuMask {
     }
 }
 
+/// Verification hook: the raw words of the mask, which is what the operating system sees.
+#[cfg(folo_verif)]
+impl CpuMask {
+    pub(crate) fn verif_words(&self) -> &[c_ulong] {
+        &self.words
+    }
+
+    pub(crate) fn verif_words_mut(&mut self) -> &mut [c_ulong] {
+        &mut self.words
+    }
+}
+
 /// Where a processor's bit sits in a mask.
 #[derive(Clone, Copy, Debug)]
 struct BitPosition {
